@@ -630,6 +630,44 @@ def emit_certs(t, outdir, verif):
     return write_if_changed(os.path.join(outdir, 'Certs.lean'), '\n'.join(lines) + '\n')
 
 
+def emit_label_checks(t, outdir, shards=16):
+    """per-quantity kernel obligations, spread over `shards` modules so lake checks them in parallel"""
+    written = 0
+    qs = t['quantities']
+    cdir = os.path.join(outdir, 'Check')
+    names = []
+    for k in range(shards):
+        part = [q for i, q in enumerate(qs) if i % shards == k]
+        lines = ['-- GENERATED by translate/translate.py — do not edit', 'import Uom.Model.LabelCheck']
+        lines += ['import Uom.Gen.Q.Q_%s' % q['module'] for q in part]
+        lines += ['namespace Uom.Gen.Check', 'open Uom', '']
+        for q in part:
+            lines.append('theorem labels_%s : labelOk Gen.q_%s = true := by decide +kernel' % (q['module'], q['module']))
+        lines.append('end Uom.Gen.Check')
+        written += write_if_changed(os.path.join(cdir, 'L%d.lean' % k), '\n'.join(lines) + '\n')
+        names.append('L%d' % k)
+    for f in os.listdir(cdir):
+        if f.endswith('.lean') and f[:-5] not in names + ['Labels']:
+            os.remove(os.path.join(cdir, f))
+    lines = ['-- GENERATED by translate/translate.py — do not edit', 'import Uom.Gen.Table']
+    lines += ['import Uom.Gen.Check.%s' % n for n in names]
+    lines += ['namespace Uom.Gen.Check', 'open Uom', '']
+    lines.append('/-- the table is the list of the per-quantity declarations -/')
+    lines.append('theorem table_eq : Gen.table = [%s] := by rfl' % ', '.join('Gen.q_' + q['module'] for q in qs))
+    lines.append('')
+    lines.append('/-- every quantity of the table passes the label obligations -/')
+    lines.append('theorem labels_all : ∀ q ∈ Gen.table, labelOk q = true := by')
+    lines.append('  rw [table_eq]')
+    lines.append('  intro q hq')
+    lines.append('  simp only [List.mem_cons, List.not_mem_nil, or_false] at hq')
+    lines.append('  rcases hq with %s' % ' | '.join(['rfl'] * len(qs)))
+    for q in qs:
+        lines.append('  · exact labels_%s' % q['module'])
+    lines.append('end Uom.Gen.Check')
+    written += write_if_changed(os.path.join(cdir, 'Labels.lean'), '\n'.join(lines) + '\n')
+    return written
+
+
 def emit_rust(t, outdir):
     """macros enumerating the SI so the harness can instantiate generic probes per quantity / unit."""
     lines = ['// GENERATED by translate/translate.py — do not edit', '']
@@ -665,6 +703,7 @@ def main():
                 u['cons_exact'] = [g.numerator, g.denominator]
     changed = 0
     changed += emit_certs(t, os.path.join(verif, 'lean', 'Uom', 'Gen'), verif)
+    changed += emit_label_checks(t, os.path.join(verif, 'lean', 'Uom', 'Gen'))
     changed += write_if_changed(os.path.join(verif, 'build', 'table.json'), json.dumps(t, ensure_ascii=False, indent=0))
     changed += emit_lean(t, os.path.join(verif, 'lean', 'Uom', 'Gen'))
     changed += emit_rust(t, os.path.join(verif, 'harness', 'src', 'gen'))
